@@ -194,6 +194,17 @@ PATTERNS = {
     "negative": [[-3.0, -2.0, -0.5], [-4.0, -5.0, -6.0], [-7.0, -8.0, -9.5]],
     "zerosum": [[-1.0, 1.0, 2.0], [3.0, -3.0, 0.0], [0.0, 0.0, 4.0]],
 }
+BIG = [[(j * 9 + i) * 0.5 - 7.0 for i in range(9)] for j in range(5)]
+BIG[1][3] = float("nan")
+BIG[4][8] = float("nan")
+PATTERNS["big"] = BIG   # 5 x 9 cells (45, two of them empty): subsets of 16 .. 43 cells
+
+
+def axes(pattern):
+    g = PATTERNS[pattern]
+    return tuple(float(j) for j in range(len(g))), tuple(10.0 + i for i in range(len(g[0])))
+
+
 EXPRSETS = [
     dict(suspect_min="mean - std", suspect_max="mean + std", fail_min="min - 2 * std", fail_max="max + 2 * std"),
     dict(suspect_min="min", suspect_max="max", fail_min="min - ( max - min ) / 2", fail_max="max + ( max - min ) / 2"),
@@ -222,11 +233,12 @@ def creator(pattern, dim):
         atexit.register(shutil.rmtree, _TMP, True)
     times = pd.to_datetime([f"2001-{m:02d}-16" for m in range(1, 13)])
     grid = np.array(PATTERNS[pattern], dtype="float64")
+    LATS, LONS = axes(pattern)
     if dim == "2d":
-        data = np.broadcast_to(grid, (12, 3, 3)).copy()
+        data = np.broadcast_to(grid, (12, *grid.shape)).copy()
         ds = xr.Dataset({"t_an": (("time", "lat", "lon"), data)}, coords=dict(time=times, lat=list(LATS), lon=list(LONS)))
     else:
-        data = np.broadcast_to(grid, (12, 2, 3, 3)).copy()
+        data = np.broadcast_to(grid, (12, 2, *grid.shape)).copy()
         data[:, 1] = 1000.0  # second depth level must never be used (depth=0)
         ds = xr.Dataset({"t_an": (("time", "depth", "lat", "lon"), data)}, coords=dict(time=times, depth=[0.0, 50.0], lat=list(LATS), lon=list(LONS)))
     path = os.path.join(_TMP, f"{pattern}_{dim}.nc")
@@ -246,6 +258,7 @@ def check_creator(case):
     if isinstance(c, alpha.Raised):
         return [V(f"{PROP}|creator|symptom=setup-raises:{c.name}", f"QcConfigCreator could not load the synthetic climatology: {c.name}: {c.msg}", None, repr(c))], True, None, 0, 1
     i0, i1, j0, j1 = case["box"]
+    LATS, LONS = axes(case["pattern"])
     bbox = [LONS[i0], LATS[j0], LONS[i1], LATS[j1]]
     cells = [PATTERNS[case["pattern"]][j][i] for j in range(j0, j1 + 1) for i in range(i0, i1 + 1)]
     cells = [v for v in cells if v == v]
@@ -282,7 +295,7 @@ def check_creator(case):
                 break
         if vs:
             break
-    full = case["box"] == [0, 2, 0, 2]
+    full = case["box"] == [0, len(LONS) - 1, 0, len(LATS) - 1]
     return vs, not full, tuple(round(v, 6) for k in ("suspect_span", "fail_span") for v in gv[k]), 0, 1
 
 
@@ -311,6 +324,7 @@ def check_creator_seq(case):
     for step, box in enumerate(case["boxes"]):
         one = dict(kind="creator", pattern=case["pattern"], dim=case["dim"], box=box, dates=1, exprs=0)
         i0, i1, j0, j1 = box
+        LATS, LONS = axes(case["pattern"])
         bbox = [LONS[i0], LATS[j0], LONS[i1], LATS[j1]]
         if case["mode"] == "edit-in-place" and vc is not None:
             vc["bbox"] = bbox
@@ -410,7 +424,7 @@ def run_task(task, acc):
         def gen():
             n = len(HOPS)
             for stride in (1, 3, 5, 7, 11):
-                for length in (40, 200):
+                for length in (40, 200) + ((2500,) if stride in (1, 7) else ()):
                     yield dict(kind="history", ops=[(i * stride + i // n) % n for i in range(length)])
         run_cases(acc, gen(), check_case)
     elif kind == "expr_long":
@@ -464,6 +478,12 @@ def run_task(task, acc):
         _, pattern, dim = task
 
         def gen():
+            if pattern == "big":
+                for box in ([0, 8, 0, 4], [0, 8, 0, 3], [0, 6, 0, 4], [0, 7, 0, 3], [1, 8, 0, 4], [0, 3, 0, 3], [0, 8, 1, 4], [2, 8, 0, 4], [0, 8, 2, 2], [4, 4, 0, 4]):
+                    for dts in range(len(DATES)):
+                        for ex in range(len(EXPRSETS)):
+                            yield dict(kind="creator", pattern=pattern, dim=dim, box=box, dates=dts, exprs=ex)
+                return
             for i0 in range(3):
                 for i1 in range(i0, 3):
                     for j0 in range(3):
